@@ -158,6 +158,19 @@ Fixpoint st_compact (s : st) (start limit : okey) : option (okey * okey) :=
   | _ => Some (start, limit)
   end.
 
+(* Compact reaching the engine: pebble.go substitutes eight 0xff bytes for a nil limit and
+   pebble.DB.Compact rejects start >= end; leveldb / devnull never fail.  true = nil error *)
+Definition ff8 : key := repeat 255 8.
+Fixpoint st_compact_ok (s : st) (start limit : okey) : bool :=
+  match s with
+  | Tab p u => let r := table_compact p start limit in st_compact_ok u (fst r) (snd r)
+  | Flu _ u => st_compact_ok u start limit
+  | Syn u => st_compact_ok u start limit
+  | Lzy _ i u => if i then st_compact_ok u start limit else true
+  | Eng EPbl _ => lex_ltb (ob start) (match limit with Some l => l | None => ff8 end)
+  | _ => true
+  end.
+
 (* ---- addressing ---- *)
 Fixpoint st_sub (d : nat) (s : st) : st :=
   match d with
@@ -194,15 +207,18 @@ Definition h_upd (h : handle) (f : st -> st) (s : st) : st :=
   st_upd (h_d h) (fun u => hunwrap (length (h_path h)) (f (hwrap (h_path h) u))) s.
 
 (* ---- running the operation language of spec/KvOps.v ---- *)
-Record rstate := { r_store : st; r_batches : list (handle * list wop); r_snaps : list st }.
+Record rstate := { r_store : st; r_batches : list (handle * list wop); r_snaps : list st; r_lives : lives }.
 
 Definition get_batch (r : rstate) (b : nat) : handle * list wop := nth b (r_batches r) (h0, []).
 Definition set_batch (r : rstate) (b : nat) (x : handle * list wop) : rstate :=
-  {| r_store := r_store r; r_batches := set_nth b x (h0, []) (r_batches r); r_snaps := r_snaps r |}.
+  {| r_store := r_store r; r_batches := set_nth b x (h0, []) (r_batches r); r_snaps := r_snaps r;
+     r_lives := r_lives r |}.
 Definition set_store (r : rstate) (s : st) : rstate :=
-  {| r_store := s; r_batches := r_batches r; r_snaps := r_snaps r |}.
+  {| r_store := s; r_batches := r_batches r; r_snaps := r_snaps r; r_lives := r_lives r |}.
+Definition set_lives (r : rstate) (l : lives) : rstate :=
+  {| r_store := r_store r; r_batches := r_batches r; r_snaps := r_snaps r; r_lives := l |}.
 
-Definition run_op (ideal : N) (r : rstate) (o : op) : rstate * list obs :=
+Definition run_op1 (ideal : N) (r : rstate) (o : op) : rstate * list obs :=
   let s := r_store r in
   match o with
   | OPut h k v => (set_store r (h_upd h (fun x => st_put x k v) s), [])
@@ -223,18 +239,27 @@ Definition run_op (ideal : N) (r : rstate) (o : op) : rstate * list obs :=
   | OFlush d => (set_store r (st_upd d (st_flush ideal) s), [])
   | ODrop d => (set_store r (st_upd d st_drop s), [])
   | ONfp d => (r, [match st_nfp (st_sub d s) with Some n => BNfp n | None => BNone end])
-  | OSnap h => ({| r_store := s; r_batches := r_batches r; r_snaps := r_snaps r ++ [h_view h s] |}, [])
+  | OSnap h => ({| r_store := s; r_batches := r_batches r; r_snaps := r_snaps r ++ [h_view h s];
+                   r_lives := r_lives r |}, [])
   | OSGet i k => (r, [match nth_error (r_snaps r) i with Some x => BGet (st_get x k) | None => BNone end])
   | OSHas i k => (r, [match nth_error (r_snaps r) i with Some x => BHas (st_has x k) | None => BNone end])
   | OSIter i p s0 => (r, [match nth_error (r_snaps r) i with Some x => BIter (st_iter x p s0) | None => BNone end])
   | OCompact h a l => (r, [BCompact (st_compact (h_view h s) a l)])
+  | OECompact h a l => (r, [BCompactErr (st_compact_ok (h_view h s) a l)])
+  | OLit i h p s0 => (set_lives r (set_nth i (Some (st_iter (h_view h s) p s0)) None (r_lives r)), [])
+  | OLNext i n => let '(l, out) := live_next (r_lives r) i n in (set_lives r l, [out])
+  | OLRel i => (set_lives r (set_nth i None None (r_lives r)), [])
   end.
 
-Fixpoint run_ops (ideal : N) (r : rstate) (ops : list op) : list obs :=
+Definition run_op (lsafe : bool) (ideal : N) (r : rstate) (o : op) : rstate * list obs :=
+  let '(r', out) := run_op1 ideal r o in
+  (set_lives r' (lives_after lsafe o (r_lives r')), out).
+
+Fixpoint run_ops (lsafe : bool) (ideal : N) (r : rstate) (ops : list op) : list obs :=
   match ops with
   | [] => []
-  | o :: ops' => let '(r', out) := run_op ideal r o in out ++ run_ops ideal r' ops'
+  | o :: ops' => let '(r', out) := run_op lsafe ideal r o in out ++ run_ops lsafe ideal r' ops'
   end.
 
-Definition run (ideal : N) (s0 : st) (ops : list op) : list obs :=
-  run_ops ideal {| r_store := s0; r_batches := []; r_snaps := [] |} ops.
+Definition run (lsafe : bool) (ideal : N) (s0 : st) (ops : list op) : list obs :=
+  run_ops lsafe ideal {| r_store := s0; r_batches := []; r_snaps := []; r_lives := [] |} ops.
